@@ -5,6 +5,7 @@
 /*@ item src/common/peer.rs struct RequestSeek @*/
 /*@ item src/common/peer.rs struct RequestUpgrade @*/
 /*@ item src/common/peer.rs struct ValuelessProof @*/
+/*@ item src/common/node.rs struct NodeByteRange @*/
 
 use flat_tree::{anc, anc_idx};
 
@@ -521,6 +522,48 @@ impl MerkleTree {
         decreases vp_nodes@.len() - vp_i
     before `let buffer =`:
         proof { let k = intmap::drain_keys(m0)[vp_i - 1]; assert(m0.contains_key(k) && *node == m0[k]); assert(m0[k].hash@.len() == 32); }
+    @*/
+
+    /*@ fn src/tree/merkle_tree.rs MerkleTree::validate_hypercore_index
+    tags: C09 C01
+    result: r
+    requires:
+        self.t_wf(), hypercore_index < 0x100_0000_0000
+    ensures:
+        // only blocks below the length have a tree index
+        r is Ok ==> r->Ok_0 == 2 * hypercore_index && hypercore_index < self.length
+    before `let compare_index = if index & 1 == 0 {`:
+        proof { let ghost ix = index; assert((ix & 1 == 0) == (ix % 2 == 0)) by (bit_vector); }
+    @*/
+    /*@ fn src/tree/merkle_tree.rs MerkleTree::byte_offset_from_index
+    tags: C09 C01
+    result: r
+    requires:
+        old(self).t_wf(), old(self).roots_wf(), old(self).unflushed_small(), infos_small(infos), infos_readable(infos), index < 0x8000_0000_0000
+    ensures:
+        *final(self) == *old(self),
+        r is Ok && r->Ok_0 is Left ==> r->Ok_0->Left_0@.len() > 0 && instr_tree(r->Ok_0->Left_0@)
+    @*/
+    /*@ fn src/tree/merkle_tree.rs MerkleTree::byte_offset
+    tags: C09 C01
+    result: r
+    requires:
+        old(self).t_wf(), old(self).roots_wf(), old(self).unflushed_small(), infos_small(infos), infos_readable(infos), hypercore_index < 0x100_0000_0000
+    ensures:
+        *final(self) == *old(self),
+        r is Ok ==> hypercore_index < old(self).length,
+        r is Ok && r->Ok_0 is Left ==> r->Ok_0->Left_0@.len() > 0 && instr_tree(r->Ok_0->Left_0@)
+    @*/
+    /*@ fn src/tree/merkle_tree.rs MerkleTree::byte_range
+    tags: C09 C01
+    result: r
+    requires:
+        old(self).t_wf(), old(self).roots_wf(), old(self).unflushed_small(), infos_small(infos), infos_readable(infos), hypercore_index < 0x100_0000_0000
+    ensures:
+        *final(self) == *old(self),
+        r is Ok ==> hypercore_index < old(self).length,
+        r is Ok && r->Ok_0 is Left ==> r->Ok_0->Left_0@.len() > 0 && instr_tree(r->Ok_0->Left_0@)
+    sub `instructions\.extend\((\w+)\);` => `vp_extend(&mut instructions, \1);`
     @*/
 
     /// a tree that holds blocks has a signature over them (established by open / commit)
